@@ -3,7 +3,7 @@
 From DV Require Import Base.Prelude Model.NameM Model.ZoneTextM.
 From DV Require Import Proofs.ZoneTextBase Proofs.ZoneTextInv Proofs.ZoneTextRespell Proofs.ZoneTextLex
   Proofs.ZoneTextAcc Proofs.ZoneTextRecord Proofs.ZoneTextSweep Proofs.ZoneTextRoundtrip Proofs.ZoneTextNames
-  Proofs.ZoneTextParens Proofs.ZoneTextRead Proofs.ZoneTextGenerate.
+  Proofs.ZoneTextParens Proofs.ZoneTextRead Proofs.ZoneTextGenerate Proofs.ZoneTextWf.
 From DV Require Import Proofs.NameValid Proofs.NameText.
 From Coq Require Import Permutation.
 Open Scope Z_scope.
@@ -59,6 +59,15 @@ Theorem origin_roundtrip : forall zo : name,
   Valid zo /\ AllBytes zo /\ is_absolute zo = true -> origin_ok zo.
 Proof. exact origin_ok_valid. Qed.
 Print Assumptions origin_roundtrip.
+
+(* The well-formedness hypothesis does not depend on the order of the names: `zone_wf` (pairwise
+   different names + a condition on each name alone) implies `nodes_wf` for every permutation, in
+   particular for the printer's order - so zone_roundtrip applies to a well-formed zone under
+   sorted and unsorted styles alike. *)
+Theorem wf_any_order : forall c st zo (z z' : zone),
+  Permutation z' z -> zone_wf c st zo z -> nodes_wf c st zo [] z'.
+Proof. exact nodes_wf_any_order. Qed.
+Print Assumptions wf_any_order.
 
 (* the printer's name sort only reorders the names *)
 Theorem printed_order_permutation : forall st nodes, Permutation (printed_order st nodes) nodes.
